@@ -391,6 +391,16 @@ def r02_11(run, model):
                f"gen_type_definition emits field types of {t}(); collector visits them: {ok}",
                witness="enum Shape { Dot, Segment((int32,int32),(int32,int32)) } with only Shape::Dot constructed: the output declares "
                        "`type Segment struct { _0 Tuple2_int32_int32 … }` and never declares Tuple2_int32_int32")
+    # the vtable of a trait used behind dyn spells out the trait's method signatures (trait_method_sigs reads trait_defs)
+    sigs = model.fn("trait_method_sigs", GO)
+    if "trait_defs" in S.norm_ws(run.facts.text(GO, sigs.body["sp"])):
+        seen = "trait_defs" in S.norm_ws(run.facts.text(GO, co.node["sp"])) and any(
+            "trait_defs" in S.norm_ws(run.facts.text(GO, l["iter"]["sp"])) and any(True for _ in S.calls(l["body"], "collect_type"))
+            for l in S.walk(co.node) if l["k"] == "For")
+        run.ob("R02.11", "collect_runtime_types|types in trait method signatures are collected", seen, site(GO, co.node["sp"]),
+               f"vtables are built from trait_defs; the collector visits them: {seen}",
+               witness="trait Plot { fn at(Self, (int32, int32)) -> Ref[int32]; } used as Vec[dyn Plot] with no impl: dyn__Plot_vtable mentions "
+                       "Tuple2_int32_int32 and ref_int32_x, neither is declared")
     run.floor("definition tables whose field types are emitted", len(E), 2)
 
 
